@@ -19,6 +19,7 @@ def main(tier):
     try:
         vf.mc(ctx, "DebFile.tla", "DebFile.cfg", what="LoadFile: descriptors held = open handles")
         vf.mc(ctx, "Registry.tla", "Registry_lock.cfg", what="decompressor table: no race when callers serialise")
+        vf.mc(ctx, "ChangelogHeaderMC.tla", "ChangelogHeaderMC.cfg", what="changelog header: scanner vs dpkg's grammar")
         code, out = vf.tlc(ctx, "Registry.tla", "Registry_none.cfg", what="M Registry (no discipline)")
         model_race = "Invariant NoRace is violated" in out
         vf.log("  M %-28s %-30s NoRace %s without caller discipline" % ("Registry.tla", "Registry_none.cfg",
